@@ -20,7 +20,7 @@ import (
 	"github.com/flamego/flamego/verifharness/internal/gen"
 )
 
-const rule = "case = request method in {GET, HEAD, POST, head} x an underlying writer (with or without http.Flusher, with or without io.ReaderFrom; sometimes itself a fresh flamego ResponseWriter around the spy) x a history of 1..14 operations over {WriteHeader(100..999), Write / io.WriteString / io.Copy of 0..64 bytes or of 0.5..70 KB (optionally cut short by the underlying writer with an error), Flush, Before(hook)}; hooks set a header, read Status()/Written(), log themselves and sometimes register one more function while they run. A second check overlaps two status-triggering operations from two goroutines (the harness holds the first status line inside the underlying writer until the second operation has been issued). " +
+const rule = "case = request method in {GET, HEAD, POST, PUT, DELETE, OPTIONS, \"\"} x an underlying writer (with or without http.Flusher, with or without io.ReaderFrom; sometimes itself a fresh flamego ResponseWriter around the spy) x a history of 1..14 operations over {WriteHeader(100..999), Write / io.WriteString / io.Copy of 0..64 bytes or of 0.5..70 KB (optionally cut short by the underlying writer with an error), Flush, Before(hook)}; hooks set a header, read Status()/Written(), log themselves and sometimes register one more function while they run. A second check overlaps two status-triggering operations from two goroutines (the harness holds the first status line inside the underlying writer until the second operation has been issued). " +
 	"Oracle: a state-machine model written from the statement, compared after every step (Status, Written, Size, return values of Write) together with invariants over the log of calls the underlying writer received (<=1 WriteHeader, before every Write/Flush; hooks registered before the trigger ran exactly once, in reverse order, before that WriteHeader, and saw Status()==0; later hooks never run). " +
 	"non-trivial = a history with >=2 hooks and a trigger, or a second WriteHeader / an implicit 200, or a body write on HEAD, or a short write; distinct by case text"
 
@@ -223,10 +223,17 @@ func checkCase(c Case) (out evid.Outcome) {
 		case "before":
 			id := op.V
 			nHooks++
-			if mStatus == 0 {
+			late := mStatus != 0
+			if !late {
 				mHooks = append(mHooks, id)
 			}
 			w.Before(func(rw flamego.ResponseWriter) {
+				if late {
+					// registered after the status went out: the statement speaks about
+					// functions registered before the first write; whether this one is
+					// ever called is left open (like a function registered by a hook)
+					return
+				}
 				hookRuns = append(hookRuns, id)
 				rw.Header().Add("X-Hooks", fmt.Sprint(id))
 				if rw.Status() != 0 || rw.Written() {
@@ -323,7 +330,7 @@ func js(v interface{}) string {
 
 func genCase(t *rapid.T) Case {
 	c := Case{
-		Method:     []string{"GET", "HEAD", "POST", "head", "GET", "HEAD"}[rapid.IntRange(0, 5).Draw(t, "method")],
+		Method:     []string{"GET", "HEAD", "POST", "PUT", "GET", "HEAD", "DELETE", "OPTIONS", ""}[rapid.IntRange(0, 8).Draw(t, "method")],
 		Flusher:    rapid.Bool().Draw(t, "flusher"),
 		ReaderFrom: rapid.Bool().Draw(t, "readerfrom"),
 		Stacked:    rapid.IntRange(0, 4).Draw(t, "stacked") == 0,
